@@ -27,6 +27,48 @@ pub fn decompress_all_valid(_c: &CompressedEdwardsY) -> Option<EdwardsPoint> {
     Some(EdwardsPoint::identity())
 }
 
+/// The bytes the key under test was decompressed from: written by a harness before it calls
+/// the code under test, read by `compress_model`.
+pub static mut DECOMPRESSED_FROM: [u8; 32] = [0; 32];
+
+/// Is `b` the canonical encoding of a point: y < p = 2^255-19, and not (x == 0 with the sign bit
+/// set; x == 0 exactly for y = 1 and y = p-1).
+pub fn is_canonical(b: &[u8; 32]) -> bool {
+    let sign = b[31] & 0x80 != 0;
+    let top = b[31] & 0x7f;
+    let mut mid_ff = true;
+    let mut mid_00 = true;
+    let mut i = 1;
+    while i < 31 {
+        if b[i] != 0xff {
+            mid_ff = false;
+        }
+        if b[i] != 0 {
+            mid_00 = false;
+        }
+        i += 1;
+    }
+    let y_ge_p = mid_ff && top == 0x7f && b[0] >= 0xed;
+    let y_is_1 = mid_00 && top == 0 && b[0] == 1;
+    let y_is_p_minus_1 = mid_ff && top == 0x7f && b[0] == 0xec;
+    !y_ge_p && !(sign && (y_is_1 || y_is_p_minus_1))
+}
+
+/// Stub for `EdwardsPoint::compress` (field arithmetic, out of CBMC's reach) for harnesses in
+/// which the only point in play was decompressed from `DECOMPRESSED_FROM`: compress(decompress(b))
+/// is b exactly when b is canonical, and some other string otherwise.  Not reached on the
+/// unchanged tree (iroh keeps the bytes it accepted and never re-compresses).
+pub fn compress_model(_p: &EdwardsPoint) -> CompressedEdwardsY {
+    let b = unsafe { DECOMPRESSED_FROM };
+    if is_canonical(&b) {
+        CompressedEdwardsY(b)
+    } else {
+        let c: [u8; 32] = kani::any();
+        kani::assume(words(&c) != words(&b));
+        CompressedEdwardsY(c)
+    }
+}
+
 pub const ORACLE_SLOTS: usize = 4;
 pub static mut ORACLE_N: usize = 0;
 pub static mut ORACLE_KEYS: [[u64; 4]; ORACLE_SLOTS] = [[0; 4]; ORACLE_SLOTS];
